@@ -300,7 +300,8 @@ fn gen_graph(src: &mut Src, max_n: usize) -> (Graph, Vec<usize>) {
 fn random_generic_case(src: &mut Src, ctx: &mut Ctx) -> Result<(), String> {
     let (g, listing) = gen_graph(src, 300);
     let k = src.usize_in(1, listing.len());
-    let starts = listing[..k].to_vec();
+    let mut starts = listing[..k].to_vec();
+    relist(src, &mut starts);
     classify(&g, &starts, ctx);
     ctx.label(&format!("graph size {}", if g.len() <= 10 { "<=10" } else if g.len() <= 100 { "11-100" } else { "101-300" }));
     if g.len() <= 8 {
@@ -344,6 +345,20 @@ fn unlist(src: &mut Src, g: &Graph, listing: &mut Vec<usize>) {
         listing.retain(|x| *x != k);
     }
 }
+/// An item may be named twice in a listing (the same cell pushed twice, a start set given with a repeat):
+/// one time in six an entry is repeated, next to itself or at the end. It is ordered once all the same.
+fn relist(src: &mut Src, listing: &mut Vec<usize>) {
+    if listing.is_empty() || !src.prob(1, 6) {
+        return;
+    }
+    let k = src.index(listing.len());
+    let x = listing[k];
+    if src.bool() {
+        listing.insert(k, x);
+    } else {
+        listing.push(x);
+    }
+}
 fn describe(g: &Graph, listing: &[usize]) -> String {
     if g.len() <= 12 {
         format!("deps {:?} listed {:?}", g, listing)
@@ -356,6 +371,7 @@ fn describe(g: &Graph, listing: &[usize]) -> String {
 fn raw_case(src: &mut Src, ctx: &mut Ctx) -> Result<(), String> {
     let (g, mut listing) = gen_embedded(src);
     unlist(src, &g, &mut listing);
+    relist(src, &mut listing);
     classify(&g, &listing, ctx);
     ctx.sample("raw library cell graph", || describe(&g, &listing));
     // cells without instances are, one time in four, abstract-only (no layout view at all)
@@ -510,6 +526,7 @@ fn tetris_lib(g: &Graph, listing: &[usize], views: u64, awaiting: bool) -> tet::
 fn tetris_case(src: &mut Src, ctx: &mut Ctx) -> Result<(), String> {
     let (g, mut listing) = gen_embedded(src);
     unlist(src, &g, &mut listing);
+    relist(src, &mut listing);
     classify(&g, &listing, ctx);
     ctx.sample("gridded-layout library cell graph", || describe(&g, &listing));
     let views = src.u64();
@@ -569,6 +586,7 @@ fn tetris_case(src: &mut Src, ctx: &mut Ctx) -> Result<(), String> {
 fn tetris_proto_case(src: &mut Src, ctx: &mut Ctx) -> Result<(), String> {
     let (g, mut listing) = gen_embedded(src);
     unlist(src, &g, &mut listing);
+    relist(src, &mut listing);
     classify(&g, &listing, ctx);
     let views = src.u64();
     let lib = tetris_lib(&g, &listing, views, false);
